@@ -1163,6 +1163,38 @@ func (c *Ctx) evalCall(env *specEnv, n *SNode) (specVal, error) {
 			a = specVal{c.Reg.Zero(b.typ), b.typ}
 		}
 		return specVal{Ite(cnd, a.t, b.t), a.typ}, nil
+	case "visitedin":
+		// visitedin(N, k): has the map-range loop number N of this function already visited key k?
+		if len(n.Args) != 2 || n.Args[0].Op != "lit-int" {
+			return specVal{}, fmt.Errorf("visitedin(loop, key) expects a literal loop number")
+		}
+		{
+			if env.frame == nil {
+				return specVal{}, fmt.Errorf("visitedin() outside of a function body")
+			}
+			want, _ := strconv.Atoi(n.Args[0].Text)
+			li := c.loopsOf(env.frame.fn)
+			var it *RangeIter
+			for v, val := range env.frame.regs {
+				ri, ok := val.(*RangeIter)
+				if !ok || !ri.IsMap {
+					continue
+				}
+				for _, ref := range *v.Referrers() {
+					if nx, ok := ref.(*ssa.Next); ok && li.heads[nx.Block()] == want {
+						it = ri
+					}
+				}
+			}
+			if it == nil {
+				return specVal{}, fmt.Errorf("visitedin: loop %d is not a map range loop that has been entered", want)
+			}
+			k, err := argv(1)
+			if err != nil {
+				return specVal{}, err
+			}
+			return specVal{Select(st.arrays[it.Visited], c.coerce(st, k, it.K)), tBool}, nil
+		}
 	case "visited":
 		// visited(k): has the enclosing map-range loop already visited key k?
 		k, err := argv(0)
@@ -1175,6 +1207,29 @@ func (c *Ctx) evalCall(env *specEnv, n *SNode) (specVal, error) {
 		}
 		vis := st.arrays[it.Visited]
 		return specVal{Select(vis, c.coerce(st, k, it.K)), tBool}, nil
+	case "subslice":
+		// subslice(s, lo, hi): the slice expression s[lo:hi], as the program computes it
+		if len(n.Args) != 3 {
+			return specVal{}, fmt.Errorf("subslice expects a slice and two bounds")
+		}
+		{
+			sv, err := argv(0)
+			if err != nil {
+				return specVal{}, err
+			}
+			lo, err := argv(1)
+			if err != nil {
+				return specVal{}, err
+			}
+			hi, err := argv(2)
+			if err != nil {
+				return specVal{}, err
+			}
+			if sv.t.Sort != SSlice {
+				return specVal{}, fmt.Errorf("subslice: first argument is not a slice")
+			}
+			return specVal{T(SSlice, "(mk_slice (sl_arr %s) (+ (sl_off %s) %s) (- %s %s) (- (sl_cap %s) %s))", sv.t.S, sv.t.S, lo.t.S, hi.t.S, lo.t.S, sv.t.S, lo.t.S), sv.typ}, nil
+		}
 	case "sprintf":
 		// the model of fmt.Sprintf: sprintf(format, a1, ...) with the arguments boxed as any
 		if len(n.Args) < 1 || len(n.Args) > 7 {
@@ -1606,6 +1661,9 @@ func (c *Ctx) hoistClosed(env *specEnv, q *SNode) []*SNode {
 		case "id":
 			return !bound[n.Text] && n.Text != "rangeidx" && n.Text != "outeridx"
 		case "forall", "exists", "typelit":
+			return false
+		}
+		if n.Op == "call" && n.Text == "visitedin" {
 			return false
 		}
 		if n.Op == "call" && (n.Text == "typeis" || n.Text == "visited") && len(n.Args) > 0 {
